@@ -429,6 +429,9 @@ func c01optStats(c *ctx, toks []string) {
 
 // corpus of minimised past failures (each one is the replay of a repaired or known difference)
 var c01corpus = []string{
+	// --backend-shards and a global setting that backend sections render (ssl-redirect-code): the full sync finds every
+	// backend unchanged, the shard files must be rewritten nevertheless
+	"opt~shards=2 svc+d/app!http:80:8080!- ep~d/app!10.0.1.1:r:app-1 sec+d/tls1!tls!1!a.local ing+d/i1@1!haproxy,-!-!a.local>/:Prefix:app:80!a.local>tls1!- sync cm~ssl-redirect-code=301 sync",
 	// de67e1a strict-host: c.local has no root path and borrows the one of the default host (config.SyncConfig);
 	// the ingress of the default host leaves the class: c.local must be rebuilt (found by the C07 lint pass)
 	"svc+e/web!http:80:8080+adm:81:adm!- ep~e/web!10.1.3.1:r:web-1 cm~strict-host=true cls+hap:haproxy-ingress.github.io/controller ing+e/i1@1!-,hap!-!_>/:Exact:web:http!-!- ing+d/i3@1!haproxy,-!-!c.local>/x:Exact:web:80!-!- sync ing~e/i1@1!other,-!-!-!-!- sync",
